@@ -984,6 +984,15 @@ class Rewriter:
         assert all(hasattr(x, 'lineno') and hasattr(x, 'colno') and hasattr(x, 'filename') for x in self.to_remove_nodes)
         assert all(isinstance(x, (ArrayNode, FunctionNode)) for x in self.modified_nodes)
         assert all(isinstance(x, (ArrayNode, AssignmentNode, FunctionNode)) for x in self.to_remove_nodes)
+        # A modified node that lies inside another modified node is re-printed
+        # together with the outer one; splicing it separately would shift the
+        # text and invalidate the recorded extent of the outer node.
+        def inside(inner: BaseNode, outer: BaseNode) -> bool:
+            return inner is not outer and inner.filename == outer.filename and \
+                (outer.lineno, outer.colno) <= (inner.lineno, inner.colno) and \
+                (inner.end_lineno, inner.end_colno) <= (outer.end_lineno, outer.end_colno)
+        self.modified_nodes = [x for x in self.modified_nodes if not any(inside(x, y) for y in self.modified_nodes)]
+
         # Sort based on line and column in reversed order
         work_nodes = [{'node': x, 'action': 'modify'} for x in self.modified_nodes]
         work_nodes += [{'node': x, 'action': 'rm'} for x in self.to_remove_nodes]
